@@ -356,6 +356,18 @@ func (w *World) buildGovParam(v *View, cp CurParams) (*TxSpec, string) {
 	if w.P.MinStakeRaises && w.R.Chance(35) {
 		key = "pos/StakeMinimum"
 	}
+	if lc := w.lastACL; lc != nil && lc.h == w.Env.H+1 && w.R.Chance(60) && lc.key != "gov/acl" {
+		// the ownership of this key was (tried to be) handed over earlier in this very block: the former and the new
+		// owner use it right away
+		if val := w.ParamValue(lc.key, true); val != nil {
+			sender := lc.new
+			label = "govparam-new-owner-same-block"
+			if lc.old != nil && w.R.Bool() {
+				sender, label = lc.old, "govparam-former-owner-same-block"
+			}
+			return w.honest(sender, govTypes.MsgChangeParam{FromAddress: sender.Addr, ParamKey: lc.key, ParamVal: val}, cp), label
+		}
+	}
 	// parameters that lost their ACL entry are interesting targets: nobody may change them any more
 	if w.R.Chance(30) {
 		acl := aclKeys(v)
@@ -383,6 +395,10 @@ func (w *World) buildGovParam(v *View, cp CurParams) (*TxSpec, string) {
 	if w.R.Chance(4) {
 		key = "pos/NoSuchParam" // registered subspace, unknown key -> handler panics (recovered)
 		label = "govparam-unknownkey"
+	} else if w.R.Chance(3) {
+		// a parameter space no module registered (nobody owns it: refused as unauthorised)
+		key = []string{"bank/sendenabled", "nosuchspace/key", "/", "pos", ""}[w.R.Intn(5)]
+		label = "govparam-unknownspace"
 	}
 	msg := govTypes.MsgChangeParam{FromAddress: sender.Addr, ParamKey: key, ParamVal: val}
 	return w.honest(sender, msg, cp), label
@@ -408,6 +424,7 @@ func (w *World) buildACL(v *View, cp CurParams) (*TxSpec, string) {
 	key := AllParamKeys[w.R.Intn(len(AllParamKeys))]
 	n := w.All[w.R.Intn(len(w.All))]
 	na := append(govTypes.ACL{}, acl...)
+	w.lastACL = &aclChange{key: key, old: w.ByAddr[hx(acl.GetOwner(key))], new: n, h: w.Env.H + 1}
 	na.SetOwner(key, n.Addr)
 	if w.R.Chance(25) && key != "gov/acl" {
 		// the new list simply omits a key (nothing validates a replacement list): that parameter then has no owner
@@ -506,7 +523,15 @@ func (w *World) buildUpgrade(v *View, cp CurParams) (*TxSpec, string) {
 		// a height that has already passed (it can never be reached again, so the exit-on-upgrade path stays out of reach)
 		h = 1 + w.R.Int63n(w.Env.H+1)
 	}
-	msg := govTypes.MsgUpgrade{Address: sender.Addr, Upgrade: govTypes.Upgrade{Height: h, Version: "2.0." + fmt.Sprint(w.R.Intn(10))}}
+	ver := "2.0." + fmt.Sprint(w.R.Intn(10))
+	if w.R.Chance(30) {
+		// a plan the running version already satisfies (no exit when its height comes): heights in the near future
+		ver = []string{AppVersion, "0.0.0", ""}[w.R.Intn(3)]
+		if w.R.Bool() {
+			h = w.Env.H + 1 + int64(w.R.Intn(6))
+		}
+	}
+	msg := govTypes.MsgUpgrade{Address: sender.Addr, Upgrade: govTypes.Upgrade{Height: h, Version: ver}}
 	return w.honest(sender, msg, cp), label
 }
 
